@@ -78,6 +78,8 @@ def substitutable(e: ast.AST, extra: Iterable[str] = ()) -> bool:
     for n in ast.walk(e):
         if isinstance(n, ast.Call):
             f = n.func
+            if isinstance(f, ast.Name) and f.id in ("set", "list", "dict") and not n.args and not n.keywords:
+                return False  # a fresh empty container: it is going to be filled, its identity matters
             if isinstance(f, ast.Name) and ((f.id in SUBST_FUNCS and not f.id[:1].isupper()) or f.id in extra or f.id in ("Decimal", "Fraction")):
                 continue
             if isinstance(f, ast.Attribute) and f.attr in PURE_METHODS:
@@ -113,6 +115,20 @@ def canon(e: ast.AST) -> Tuple[str, bool]:
     while isinstance(e, ast.UnaryOp) and isinstance(e.op, ast.Not):
         e = e.operand
         flip = not flip
+    # truthiness of d.values() / d.keys() / d.items() / len(d) / bool(d) is the truthiness of d
+    changed = True
+    while changed:
+        changed = False
+        if isinstance(e, ast.Call) and not e.keywords:
+            if isinstance(e.func, ast.Attribute) and e.func.attr in ("values", "keys", "items") and not e.args:
+                e, changed = e.func.value, True
+            elif isinstance(e.func, ast.Name) and e.func.id in ("len", "bool") and len(e.args) == 1:
+                e, changed = e.args[0], True
+        elif isinstance(e, ast.Compare) and len(e.ops) == 1 and isinstance(e.left, ast.Call) and isinstance(e.left.func, ast.Name) and e.left.func.id == "len" and len(e.left.args) == 1 \
+                and isinstance(e.comparators[0], ast.Constant) and e.comparators[0].value == 0 and isinstance(e.ops[0], (ast.Gt, ast.NotEq, ast.Eq)):
+            if isinstance(e.ops[0], ast.Eq):
+                flip = not flip
+            e, changed = e.left.args[0], True
     if isinstance(e, ast.Compare) and len(e.ops) == 1:
         op, l, r = e.ops[0], e.left, e.comparators[0]
         if type(op) in _FLIP:
@@ -204,6 +220,15 @@ class _Fold(ast.NodeTransformer):
         n = self.generic_visit(n)
         if isinstance(n.func, ast.Name) and n.func.id == "len" and len(n.args) == 1 and isinstance(n.args[0], (ast.Tuple, ast.List)) and not n.keywords:
             return ast.Constant(value=len(n.args[0].elts))
+        if isinstance(n.func, ast.Name) and n.func.id == "list" and len(n.args) == 1 and not n.keywords and isinstance(n.args[0], ast.Call) and isinstance(n.args[0].func, ast.Name) \
+                and n.args[0].func.id in ("filter", "map") and len(n.args[0].args) == 2 and isinstance(n.args[0].args[0], ast.Lambda) and len(n.args[0].args[0].args.args) == 1:
+            # list(filter(lambda v: P, it)) == [v for v in it if P] ; list(map(lambda v: E, it)) == [E for v in it]
+            lam, it = n.args[0].args
+            v = lam.args.args[0].arg
+            tgt = ast.Name(id=v, ctx=ast.Store())
+            if n.args[0].func.id == "filter":
+                return ast.ListComp(elt=ast.Name(id=v, ctx=ast.Load()), generators=[ast.comprehension(target=tgt, iter=it, ifs=[lam.body], is_async=0)])
+            return ast.ListComp(elt=lam.body, generators=[ast.comprehension(target=tgt, iter=it, ifs=[], is_async=0)])
         if isinstance(n.func, ast.Name) and n.func.id in self.records and n.func.id not in self.bound and not any(isinstance(a, ast.Starred) for a in n.args) \
                 and not any(k.arg is None for k in n.keywords):
             # record constructors: positional arguments named by field order, keywords in field order
@@ -440,6 +465,17 @@ class PathSummary:
         for k, v in self.assign.items():
             if loop_line in self.where[k][0]:
                 out.setdefault(self.plain(k), v)
+        return out
+
+    def atoms_in_occ(self, loop_line: int) -> Dict[str, bool]:
+        """Atoms decided inside the loop; the n-th decision of the same condition (n >= 2) is named occ<n>(<condition>)."""
+        out: Dict[str, bool] = {}
+        seen: Dict[str, int] = {}
+        for k, v in self.assign.items():
+            if loop_line in self.where[k][0]:
+                pk = self.plain(k)
+                seen[pk] = seen.get(pk, 0) + 1
+                out[pk if seen[pk] == 1 else f"occ{seen[pk]}({pk})"] = v
         return out
 
     def atoms_between(self, lo: int, hi: int, outside: Optional[int] = None) -> Dict[str, bool]:
@@ -734,7 +770,8 @@ class Summariser:
                 body_names = _assigned_in(node.ast.body) | set(_names(node.ast.target))
                 if first:
                     it = self.sub(node.ast.iter, env)
-                    eff_iter = effects + [Eff("for", node.ast.target, it, node.line, lstack, node.ast)]
+                    eff_iter = effects + [Eff("for", node.ast.target, it, node.line, lstack, node.ast, False,
+                                              frozenset(nm for nm, v in env.items() if isinstance(v, ast.Name) and v.id == nm))]
                     choices = [(s, lab) for s, lab in succ if lab == "iter"]
                     if not self.nonempty(node.ast, env):
                         choices += [(s, lab) for s, lab in succ if lab == "exhaust"]
@@ -1243,7 +1280,7 @@ class _Reducer:
                 return self.block(self._expand(st.targets[0].id, red, st))
             if red is not None and isinstance(st, ast.AnnAssign) and isinstance(st.target, ast.Name):
                 return self.block(self._expand(st.target.id, red, st))
-            if red is not None and isinstance(st, ast.Return):
+            if red is not None and isinstance(st, ast.Return) and not red[0].startswith("collect"):
                 t = self.fresh("r")
                 ret = ast.copy_location(ast.Return(value=ast.Name(id=t, ctx=ast.Load())), st)
                 return self.block(self._expand(t, red, st)) + [ret]
@@ -1276,6 +1313,8 @@ class _Reducer:
     def _hoist(self, e: ast.AST, at: ast.stmt) -> Tuple[List[ast.stmt], ast.AST]:
         """The first-evaluated reduction inside *e* becomes a temporary assigned just before the statement."""
         from .normalize import _eval_order, _BLOCK
+        if _reduction(e) is not None and _reduction(e)[0].startswith("collect"):
+            return [], e  # a list built in place where it is used stays an expression
         if _reduction(e) is not None:
             t = self.fresh("t")
             pre = ast.copy_location(ast.Assign(targets=[ast.Name(id=t, ctx=ast.Store())], value=e), at)
@@ -1284,14 +1323,14 @@ class _Reducer:
         for n in _eval_order(e):
             if n is _BLOCK:
                 break
-            if _reduction(n) is not None:
+            if _reduction(n) is not None and not _reduction(n)[0].startswith("collect"):
                 target = n
                 break
             if isinstance(n, ast.Call) and not is_pure(n) and not any(_reduction(x) is not None for x in ast.walk(n)):
                 break
         if target is None:
             # list comprehensions are not calls: look for one evaluated unconditionally at the top level of the expression
-            for n in ast.walk(e):
+            for n in []:
                 if isinstance(n, (ast.ListComp,)) and _reduction(n) is not None and not any(isinstance(p_, (ast.Lambda, ast.IfExp, ast.BoolOp, ast.GeneratorExp, ast.ListComp)) and n in ast.walk(p_) and p_ is not n for p_ in ast.walk(e)):
                     target = n
                     break
